@@ -18,7 +18,7 @@ PROPERTY = "C15"
 LEVEL = "exploration"
 RULE = (
     "cases = (operation, backend flavour in {ndarray, xr.DataArray, xr.Dataset}, 1-6 argument arrays of 0-3 dims with sizes 1-4, "
-    "dtype in {int64, float64, float32, bool for min/max}, axis/dim argument, take indices (int, list, negative), stack axis, concat "
+    "dtype in {int64, float64, float32, int8, uint8, int16, bool; narrow integers scaled so that sums/products overflow the input dtype}, axis/dim argument, take indices (int, list, negative), stack axis, concat "
     "axis, and for every function the library marks batchable (enumerated from Backend by reflection) every ordered partition of "
     "2-6 arguments into >=2 consecutive batches); oracle = NumPy on the raw data; non-trivial = >=3 arguments with >=2 different "
     "values, or a batch partition with unequal batch sizes, or an axis/dim argument that is not the first axis; distinct = "
@@ -48,7 +48,7 @@ MANIFEST = {
 MULTI = ["sum", "prod", "min", "max", "mean", "std", "var"]
 BINARY = ["add", "subtract", "multiply", "divide", "pow"]
 NPBIN = {"add": np.add, "subtract": np.subtract, "multiply": np.multiply, "divide": np.divide, "pow": np.power}
-DTYPES = ["int64", "float64", "float32"]
+DTYPES = ["int64", "float64", "float32", "int8", "uint8", "int16", "bool"]
 DIMS = ["d0", "d1", "d2"]
 
 
@@ -147,6 +147,10 @@ def cases(draw):
 
 def _mk(raw, shape, dtype, flavour):
     a = np.asarray(raw, dtype="int64").reshape(shape)
+    if dtype in ("int8", "int16"):
+        a = a * 30  # -120..120: fits the input dtype, sums and products of a few of them do not
+    elif dtype == "uint8":
+        a = np.abs(a) * 60
     a = (a != 0) if dtype == "bool" else a.astype(dtype)
     if flavour == "np":
         return a
@@ -175,8 +179,8 @@ def _agree(got, exp, what, approx=False):
     e = np.asarray(exp)
     if g.shape != e.shape:
         raise Violation(f"{what}: shape {g.shape} expected {e.shape}", "shape")
-    if g.dtype.kind != e.dtype.kind and not (g.dtype.kind in "iu" and e.dtype.kind in "iu"):
-        raise Violation(f"{what}: dtype {g.dtype} expected {e.dtype}", "dtype")
+    if g.dtype != e.dtype:
+        raise Violation(f"{what}: dtype {g.dtype}, NumPy gives {e.dtype}", "dtype")
     if approx or e.dtype.kind == "f":
         ok = np.allclose(g.astype("float64"), e.astype("float64"), rtol=1e-6 if approx else 0, atol=1e-9 if approx else 0, equal_nan=True)
     else:
